@@ -212,6 +212,8 @@ func (t *target) observe(op *Op) {
 			obs.HasHead = 1
 			if err == nil {
 				obs.Head = []int{1, rootID(h.Root), int(h.Slot)}
+			} else {
+				op.Detail += " head: " + err.Error()
 			}
 		})
 		if out != "ok" {
